@@ -359,6 +359,30 @@ func vfC05Check(c vfC05Case) error {
 	describe := func() string {
 		return fmt.Sprintf("mode=%s config=%s corpus=%v run=%q skip=%q maxServers=%d fault=%s@%s runErr=%v\nrunner stderr: %s\nrunner output (tail): %s", c.Mode, c.Config, c.Corpus, runPats, skipPats, c.MaxServers, c.ServerFault, faultTuple, runErr, errP.String(), vfTail(logP.Full(), 2500))
 	}
+	// ---- the runner's own report: it names and counts selected permutations only, each once
+	reported := map[string]int{}
+	total := -1
+	for _, line := range strings.Split(logP.Full(), "\n") {
+		switch {
+		case strings.HasPrefix(line, "FAILED: ") && strings.HasSuffix(line, ":"):
+			reported[strings.TrimSuffix(strings.TrimPrefix(line, "FAILED: "), ":")]++
+		case strings.HasPrefix(line, "FAILED: ") && strings.HasSuffix(line, " was expected to fail but did not"):
+			reported[strings.TrimSuffix(strings.TrimPrefix(line, "FAILED: "), " was expected to fail but did not")]++
+		case strings.HasPrefix(line, "Total cases: "):
+			_, _ = fmt.Sscanf(line, "Total cases: %d", &total)
+		}
+	}
+	for name, n := range reported {
+		if _, ok := selected[name]; !ok {
+			return verifkit.Violf("unselected-reported", "the report names %q, which is not a selected permutation (for a gRPC peer: not one it supports)\n%s", name, describe())
+		}
+		if n != 1 {
+			return verifkit.Violf("reported-twice", "the report names %q %d times\n%s", name, n, describe())
+		}
+	}
+	if total >= 0 && c.ServerFault == "" && !clientDies && total != len(selected) {
+		return verifkit.Violf("total-cases", "the report counts %d cases, %d permutations are selected\n%s", total, len(selected), describe())
+	}
 	// ---- (4)(5) server lifecycle
 	type srv struct {
 		ev      vfPeerEvent
@@ -686,6 +710,11 @@ func TestVerifC05ClientKinds(t *testing.T) {
 			rows = append(rows, vfC05Case{Mode: mode, Config: "default", Corpus: mode == "both", MaxServers: 1, Order: "immediate", Procs: 4,
 				Generalise: []int{0, 0, 0, 0, 0}, ServerFault: fault, FaultTuple: len(rows)})
 		}
+	}
+	// server mode with a raw-request case under every config: the runner's own grpc-go client gets only what it supports
+	for _, config := range []string{"default", "h2-grpc"} {
+		rows = append(rows, vfC05Case{Mode: "server", Config: config, MaxServers: 2, Order: "immediate", Procs: 4, Generalise: []int{0, 0, 0, 0, 0},
+			Suites: []vfSuite{{Name: "Raw Requests", Mode: 2, Cases: []vfSuiteTC{{Name: "raw/one", Stream: 1, RawReq: true}, {Name: "unary/success", Stream: 1}}}}})
 	}
 	shard, shards := verifkit.Shard()
 	for i, c := range rows {
